@@ -154,7 +154,7 @@ def gen(rng, tier):
 def judge(case, out):
     """the property's end-to-end oracle on the implementation's own output: written ++ failed are distinct accepted lines in
     acceptance order; lossy: offered = accepted + dropped; a dropped guard whose worker left has drained everything accepted before it"""
-    if out.endswith(' ITS-TIMEOUT-FIRED'):
+    if out.endswith(' ITS-TIMEOUT-FIRED') and 'dropf' in case:
         # the implementation reported on stderr that one of ITS OWN timeouts fired (a 100 ms / 1 s wait in the guard's drop ran
         # out on this machine): the run is outside the assumption 'timeouts do not fire' and says nothing
         return 'ok'
@@ -205,8 +205,9 @@ def classify(stream, case, out):
                                                                           'y' if 'writerdropped=1' in out and case.split(' ; ')[-2].startswith('of ') else 'n')
 
 _s = Stream('script', 'h_appender', gen=gen, per_process=True, nontrivial=nontrivial)
-_s.stderr_marks = [('timed out after', 'ITS-TIMEOUT-FIRED')]
-_s.model_match = lambda case, model, impl: impl.endswith(' ITS-TIMEOUT-FIRED') or model == impl
+# (only the 100 ms wait of a guard dropped on a FULL queue: the 1 s wait for the worker's answer running out is a failure)
+_s.stderr_marks = [('Sending shutdown signal to logging worker timed out', 'ITS-TIMEOUT-FIRED')]
+_s.model_match = lambda case, model, impl: (impl.endswith(' ITS-TIMEOUT-FIRED') and 'dropf' in case) or model == impl
 _s.py_judge = judge
 _s.valid_case = valid_case
 
